@@ -793,6 +793,66 @@ Proof.
            specialize (Hfail (Z.of_nat (S k1)) HJ ltac:(lia)). rewrite Nat2Z.id in Hfail. cbn [nth] in Hfail. lia.
       * intros i Hi. apply in_map_iff in Hi. destruct Hi as [k0 [<- Hk0]]. apply in_seq in Hk0. lia.
 Qed.
+
+Lemma In_delete_atL {A} (x : A) : forall l k, In x (delete_atL k l) -> In x l.
+Proof. induction l as [|a l IH]; intros k H; [destruct k; destruct H|]. destruct k as [|k]; [right; exact H|]. destruct H as [->|H]; [left; reflexivity|right; apply (IH k H)]. Qed.
+Lemma remove_loop_picks : forall idx L v li vi leg L', (forall i, In i idx -> 0 <= i) -> StronglySorted Z.gt idx ->
+  py_Q_remove_loop1 idx L v li vi leg = FRet L' ->
+  exists i, In i idx /\ L' = insert_atL (S (Z.to_nat i)) leg L /\ (Z.to_nat i < length L)%nat /\ (length (nth (Z.to_nat i) L []) <= length leg)%nat /\
+            forall j, In j idx -> j > i -> (length leg < length (nth (Z.to_nat j) L []))%nat.
+Proof.
+  induction idx as [|i idx IH]; intros L v li vi leg L' Hpos Hsort H; [discriminate H|]. cbn [py_Q_remove_loop1] in H.
+  destruct (idx_ok L i) eqn:EI; [|discriminate H]. pose proof (Hpos i (or_introl eq_refl)) as Hi. pose proof (idx_ok_lt' L i EI Hi) as Hlt.
+  rewrite (list_get_nth [] L i Hi EI) in H. inversion Hsort as [|a l Hs Hf]; subst.
+  destruct (Z.of_nat (length (nth (Z.to_nat i) L [])) <=? Z.of_nat (length leg)) eqn:ET.
+  - injection H as <-. exists i. split; [left; reflexivity|]. split.
+    + f_equal. unfold norm_insert. assert (E : (i + 1 <? 0) = false) by lia. rewrite E. lia.
+    + split; [exact Hlt|]. split; [lia|]. intros j [<-|Hj] Hgt; [lia|]. rewrite Forall_forall in Hf. specialize (Hf j Hj). lia.
+  - destruct (IH L v li vi leg L' (fun j Hj => Hpos j (or_intror Hj)) Hs H) as [i' [Hin [HL [Hlt' [Hle Hfail]]]]].
+    exists i'. split; [right; exact Hin|]. split; [exact HL|]. split; [exact Hlt'|]. split; [exact Hle|].
+    intros j [<-|Hj] Hgt; [lia|apply Hfail; assumption].
+Qed.
+(* remove keeps the legs behind the centre ordered by length *)
+Theorem gen_q_remove_sorted legs v legs' : legs <> [] -> Forall (fun leg => leg <> []) legs -> SortedLegs legs -> py_Q_remove legs v = FRet legs' -> SortedLegs legs'.
+Proof.
+  intros Hne Hnonempty HS H. unfold py_Q_remove in H. cbv beta iota zeta in H.
+  destruct (py_Q_find legs v) as [[li vi]| | | |] eqn:EF; try discriminate H. destruct (find_range legs v li vi EF) as [Hli|Hli]; [subst li; discriminate H|].
+  assert (Hn : norm_idx (length legs) li = li) by (unfold norm_idx; assert (E : (li <? 0) = false) by lia; rewrite E; reflexivity). rewrite !Hn in H.
+  destruct legs as [|c T]; [congruence|]. unfold SortedLegs in *. cbn [tl] in HS.
+  destruct (li =? -1) eqn:E1; [discriminate H|]. destruct (li =? 0) eqn:E0; [discriminate H|].
+  destruct (idx_ok (c :: T) li) eqn:EI; [|discriminate H]. pose proof (idx_ok_lt' _ li EI Hli) as Hlt.
+  rewrite !(list_get_nth [] (c :: T) li Hli EI) in H. destruct (Z.to_nat li) as [|k] eqn:EK; [lia|]. cbn [nth delete_atL] in H.
+  set (T1 := delete_atL k T) in *.
+  assert (HS1 : StronglySorted le (lens T1)) by (unfold T1; rewrite lens_delete; apply SS_delete; exact HS).
+  destruct (vi <=? Z.of_nat (length (nth k T []))); [|discriminate H].
+  set (x := firstn (Z.to_nat vi) (nth k T [])) in *.
+  assert (HT1 : forall leg, In leg T1 -> (1 <= length leg)%nat).
+  { intros leg Hleg. rewrite Forall_forall in Hnonempty. assert (Hin : In leg T) by (apply (In_delete_atL leg T k Hleg)).
+    specialize (Hnonempty leg (or_intror Hin)). destruct leg; [congruence|cbn; lia]. }
+  destruct (Z.of_nat (length x) =? 0) eqn:EP0; [injection H as <-; exact HS1|].
+  destruct (Z.of_nat (length x) =? 1) eqn:EP1.
+  - injection H as <-. unfold norm_insert. cbn. constructor; [exact HS1|]. apply Forall_forall. intros y Hy. unfold lens in Hy. apply in_map_iff in Hy. destruct Hy as [leg [<- Hleg]].
+    specialize (HT1 leg Hleg). lia.
+  - destruct (idx_ok (c :: T1) (Z.of_nat (length (c :: T1)) - 1)) eqn:EL; [|discriminate H].
+    destruct (Z.of_nat (length x) >=? Z.of_nat (length (list_get [] (c :: T1) (Z.of_nat (length (c :: T1)) - 1)))) eqn:EG.
+    + injection H as <-. cbn [app tl]. rewrite <- insert_atL_end, lens_insert, <- (lens_length T1). apply SS_insert; [exact HS1|lia| |intros k0 Hk0; lia].
+      intros k0 Hk0. rewrite lens_length in Hk0. rewrite (list_get_nth [] (c :: T1)) in EG by (try exact EL; cbn [length]; lia).
+      replace (Z.to_nat (Z.of_nat (length (c :: T1)) - 1)) with (length T1) in EG by (cbn [length]; lia). destruct T1 as [|t0 T1'] eqn:ET1; [cbn in Hk0; lia|].
+      cbn [nth length] in EG. apply Nat.le_trans with (nth (length T1') (lens (t0 :: T1')) O); [apply SS_nth; [exact HS1|rewrite lens_length; cbn [length] in *; lia]|].
+      rewrite lens_nth. cbn [nth length] in *. lia.
+    + apply remove_loop_picks in H; [| |apply down_from_sorted].
+      * destruct H as [i [Hin [-> [Hlti [Hle Hfail]]]]]. apply in_map_iff in Hin. destruct Hin as [k0 [Hi0 Hk0]]. apply in_seq in Hk0.
+        assert (Hi1 : 2 <= i) by (cbn [length] in *; lia). destruct (Z.to_nat i) as [|i'] eqn:EZ; [lia|].
+        change (tl (insert_atL (S (S i')) x (c :: T1))) with (insert_atL (S i') x T1). rewrite lens_insert.
+        cbn [nth] in Hle. cbn [length] in Hlti.
+        apply SS_insert; [exact HS1|rewrite lens_length; lia| |].
+        -- intros k1 Hk1. apply Nat.le_trans with (nth i' (lens T1) O); [apply SS_nth; [exact HS1|rewrite lens_length; lia]|]. rewrite lens_nth. exact Hle.
+        -- intros k1 Hk1. rewrite lens_length in Hk1. rewrite lens_nth.
+           assert (HJ : In (Z.of_nat (S k1)) (map (fun k_ => Z.of_nat (length (c :: T1)) - 1 - Z.of_nat k_) (seq 0 (Z.to_nat (Z.of_nat (length (c :: T1)) - 1 - 1))))).
+           { apply in_map_iff. exists (length T1 - S k1)%nat. split; [cbn [length]; lia|]. apply in_seq. cbn [length]. lia. }
+           specialize (Hfail (Z.of_nat (S k1)) HJ ltac:(lia)). rewrite Nat2Z.id in Hfail. cbn [nth] in Hfail. lia.
+      * intros i Hi. apply in_map_iff in Hi. destruct Hi as [k0 [<- Hk0]]. apply in_seq in Hk0. lia.
+Qed.
 Print Assumptions gen_q_anti_commutates.
 Print Assumptions gen_q_max_connected.
 Print Assumptions gen_q_append_to_queue.
@@ -807,6 +867,7 @@ Print Assumptions gen_q_append_accounts.
 Print Assumptions gen_q_remove_accounts.
 Print Assumptions gen_q_replace_accounts.
 Print Assumptions gen_q_append_sorted.
+Print Assumptions gen_q_remove_sorted.
 Print Assumptions gen_q_append_to_center.
 Print Assumptions gen_q_append_to_center_refuted.
 Print Assumptions gen_q_get_lits.
